@@ -249,21 +249,36 @@ func (ms *Modules) FindModuleByNamespace(ns string) (*Module, error) {
 		return m, nil
 	}
 	var found *Module
+	var clash []string
 	for _, m := range ms.Modules {
 		if m.Namespace.Name == ns {
 			switch {
+			case found == nil:
+				found = m
 			case m == found:
-			case found != nil && found.Name == m.Name:
+			case found.Name == m.Name:
 				// Two revisions of one module: the bare
 				// name denotes the latest one.
 				found = ms.Modules[m.Name]
-			case found != nil:
-				return nil, fmt.Errorf("namespace %s matches two or more modules (%s, %s)",
-					ns, found.Name, m.Name)
 			default:
-				found = m
+				clash = append(clash, m.Name)
 			}
 		}
+	}
+	if len(clash) > 0 {
+		// Name the first two in sorted order, whatever order the map
+		// was visited in.  No name in clash equals found.Name, but a
+		// name may be there more than once.
+		names := append(clash, found.Name)
+		sort.Strings(names)
+		second := names[1]
+		for _, n := range names[1:] {
+			if n != names[0] {
+				second = n
+				break
+			}
+		}
+		return nil, fmt.Errorf("namespace %s matches two or more modules (%s, %s)", ns, names[0], second)
 	}
 	if found == nil {
 		return nil, fmt.Errorf("%q: no such namespace", ns)
